@@ -16,13 +16,13 @@ theorem finishCall_eff (g : Cfg) (r : S × Ret) :
   · rename_i he
     simp only
     split
-    · simp [he]
+    · simp [he, stopTimer]
     · have hD := D_cModWrite g r.1
       simp only [D, Prod.mk.injEq] at hD
       obtain ⟨d1, _, _, _, d5, d6⟩ := hD
       simp [he, d1, d5, d6]
   · rename_i he
-    simp [closeNow, he]
+    simp [flip, he]
 
 /-- c.write: either the whole input is accepted (a prefix of it goes out directly) or nothing happens -/
 theorem writeInner_ret (g : Cfg) (s : S) (b : Bytes) (k : KAns) (hp : AllPos s.wl) :
